@@ -22,8 +22,9 @@ class NetStore:
         self.stored = False          # a network is stored (formed and not left)
         self.running = False         # the stack is up (after form / networkInit)
         self.params = None
-        self.netkey, self.netseq, self.netfc = Z16, 0, 0
-        self.apsfc = 0
+        # an NCP that has been used before: counters (and a key) of its previous network are still in its tokens
+        self.netkey, self.netseq, self.netfc = bytes(range(0x60, 0x70)), 9, 0x00ABCDEF
+        self.apsfc = 0x00012345
         self.prekey, self.tc_eui, self.init_bitmask = Z16, Z8, 0
         self.keys = [None] * key_table_size          # (key bytes, partner bytes)
         self.children = {}                           # index -> (eui bytes, nwk, type)
